@@ -552,4 +552,41 @@ def stripOAIGen (fc : Facts) (x : Ext) (s : St) : Outcome (St × Bool) :=
   let s1 := stripPrepare s
   stripInOrder fc x s1 (s1.ctx.newRefs.map (·.1))
 
+/-! ### the pipeline after `expand`, for documents whose schema `$ref`s are all local -/
+
+/-- `importReferences` when no schema `$ref` is remote: one round of `importExternalReferences`
+    finds nothing to import (`complete = true`), the `newRefs` maintenance loop has nothing to do on
+    an empty context, and the spec is re-analyzed.  Remote references are outside this model. -/
+def importReferencesLocal (fc : Facts) (s : St) : Outcome St :=
+  if (refMap (· = "schema") s.idx).all (fun kv => hasFragmentOnly kv.2) && s.ctx.newRefs.isEmpty
+  then .ok (reload fc s)
+  else .err "not modelled: remote schema references"
+
+/-- the loop of `stripPointersAndOAIGen` -/
+def stripLoop (fc : Facts) (x : Ext) (o : Opts) : Nat → St → Bool → Outcome St
+  | 0, _, _ => .outOfFuel
+  | fuel + 1, s, again =>
+    if !again then .ok s
+    else do
+      let s1 ← (if !o.minimal then nameInlinedSchemas fc x o (reload fc s) else pure s)
+      let s2 ← namePointers fc x o s1
+      let (s3, again') ← stripOAIGen fc x s2
+      stripLoop fc x o fuel s3 again'
+
+/-- `stripPointersAndOAIGen(opts)` -/
+def stripPointersAndOAIGen (fc : Facts) (x : Ext) (o : Opts) (fuel : Nat) (s : St) : Outcome St := do
+  let s1 ← namePointers fc x o s
+  let (s2, again) ← stripOAIGen fc x s1
+  stripLoop fc x o fuel s2 again
+
+/-- `Flatten(opts)` from the state reached after `expand` (phase 1 is `spec.ExpandSpec`, a library
+    call) to the end, in Minimal or full mode, for documents without remote schema references -/
+def flattenLocal (fc : Facts) (x : Ext) (o : Opts) (fuel : Nat) (s : St) : Outcome St := do
+  let s1 ← normalizeRef fc x o s
+  let s2 := if o.removeUnused then removeUnusedShared fc s1 else s1
+  let s3 ← importReferencesLocal fc s2
+  let s4 ← (if !o.minimal && !o.expand then nameInlinedSchemas fc x o s3 else pure s3)
+  let s5 ← stripPointersAndOAIGen fc x o fuel s4
+  if o.removeUnused then removeUnused fc x s5 else pure s5
+
 end Flatten
